@@ -52,6 +52,8 @@ func moduleCalls(p *load.Program) []callSite {
 func C10(e *Env) {
 	r := e.R
 	e.analysedBase()
+	cliSurfaceRule(e, "R16.0")
+	e.R.Rule("R16.0", "the command line the property is stated for exists: `gontainer build` with -i, -o, -q (shared with C16)", 7)
 	r.Rule("R10.1", "exactly one call of a file-mutating API exists in module code: os.WriteFile in StepCodeGenerator.Run, whose path derives from the step's outputFile field only", 1)
 	r.Rule("R10.2", "that write is reachable only through the success edge of builder.Build, writes Build's result, and every 'return nil' of the step lies behind the success edge of the write", 2)
 	r.Rule("R10.3", "Runner.Run leaves the loop at the first failing step (no step runs after a failure), returns that step's error, and returns nil only after the loop; NewRunner keeps the step order; the code generator is the last step of the runner in gontainer.go and occurs once", 4)
